@@ -89,6 +89,7 @@ class Profile(object):
         # SIZE bounds on both sides of the one/two-octet length forms and of the 64K limit of PER constrained
         # lengths, beyond max_size_bound (values stay short unless the lower bound forces a length)
         self.alias_chain_rate = 10      # percent of specs that get 'Ch1 ::= X', 'Ch2 ::= Ch1' and a user of the alias
+        self.dup_names_rate = 8         # percent of specs in which two modules define different types of one name
         self.same_defaults_rate = 0     # percent of specs whose modules share tag and extensibility defaults
         self.components_of_rate = 0     # percent of specs that get a 'CO ::= SEQUENCE { COMPONENTS OF X, ... }'
         self.big_size_rate = 8
@@ -804,7 +805,53 @@ class _G(object):
             self.components_of()
         if P.refs and P.alias_chain_rate and self.chance(P.alias_chain_rate):
             self.alias_chain()
+        if P.refs and P.dup_names_rate and P.max_modules >= 2 and self.chance(P.dup_names_rate):
+            self.dup_type_names()
         return Spec(self.modules)
+
+    def dup_type_names(self):
+        """Stratification floor: two modules each define their own, different 'Id' (and 'Level') and each refers to
+        its own one from a like-named component of a container ('UdA' / 'UdB'): a name is resolved in the module
+        where it is written."""
+        allnames = {n for m in self.modules for n, _ in m.types}
+        if allnames & {'Id', 'Level', 'UdA', 'UdB'}:
+            return
+        if len(self.modules) == 1:
+            self.modules.append(Module(MODULE_NAMES[1], self.modules[0].tagdefault if self.chance(60) else
+                                       self.pick(self.p.tagdefaults), False))
+        ma, mb = self.modules[0], self.modules[1]
+        saved = self.p.kinds
+        try:
+            for tname in ('Id', 'Level'):
+                kinds = [k for k in ('INTEGER', 'IA5String', 'BOOLEAN', 'OCTET STRING', 'ENUMERATED', 'BIT STRING')
+                         if k in saved]
+                if len(kinds) < 2:
+                    return
+                ka = self.pick(kinds)
+                kb = self.pick([k for k in kinds if k != ka])
+                for mod, k in ((ma, ka), (mb, kb)):
+                    self.p.kinds = [k]
+                    mod.types.append((tname, self.prim(mod, 0)))
+        finally:
+            self.p.kinds = saved
+        names = self.member_names(2)
+        for mod, cname in ((ma, 'UdA'), (mb, 'UdB')):
+            members = [Member(names[0], Ty('REF', ref='Id')), Member(names[1], Ty('REF', ref='Level'))]
+            if self.chance(30):
+                members[1].optional = True
+            t = Ty(self.pick(['SEQUENCE', 'SEQUENCE', 'CHOICE']) if 'CHOICE' in self.p.constructed else 'SEQUENCE',
+                   root=members)
+            if t.kind == 'CHOICE':
+                members[1].optional = False
+            mod.types.append((cname, t))
+            spec = Spec(self.modules)
+            spec.link()
+            if self.chance(50):
+                if mod.tagdefault != 'AUTOMATIC' and not self.legal(spec, t, mod):
+                    self.tag_all(spec, t, mod)
+            else:
+                self.fix_tags(spec, t, mod)
+            self.avail.append((mod.name, cname, t.kind))
 
     def alias_chain(self):
         """Stratification floor: a chain of plain aliases 'Ch1 ::= X', 'Ch2 ::= Ch1' ending in an existing type and a
@@ -954,6 +1001,18 @@ class _G(object):
         # per member, what differs between its two occurrences: exactly one thing (a constraint at the reference, a
         # DEFAULT, OPTIONAL) with the other occurrence plain, or anything
         roles = [self.pick(['constraint', 'constraint', 'default', 'optional', 'any', 'any']) for _ in aliases]
+        if 'CHOICE' in P.constructed and 'Dc' not in tnames and self.chance(50):
+            # the same names and referenced types once more as alternatives of a CHOICE (whose encodings carry the
+            # alternative's own tag), usually with tags of their own
+            t = Ty('CHOICE', root=[Member(nm, Ty('REF', ref=al)) for nm, al in zip(names, aliases)])
+            mod.types.append(('Dc', t))
+            spec = Spec(self.modules)
+            spec.link()
+            if P.tags and self.chance(60):
+                self.tag_all(spec, t, mod)
+            elif mod.tagdefault != 'AUTOMATIC' and not self.legal(spec, t, mod):
+                self.tag_all(spec, t, mod)
+            self.avail.append((mod.name, 'Dc', 'CHOICE'))
         for cname in ('Dv', 'Dw'):
             if cname in tnames:
                 continue
